@@ -316,7 +316,14 @@ class GenericSQLURLTable(BaseSQLURLTable):
     def __init__(self, url):
         super().__init__()
         self._engine = create_engine(url)
-        DBBase.metadata.create_all(self._engine)
+
+        # As in SQLiteURLTable: the schema is created in one transaction.
+        with self._engine.begin() as connection:
+            if self._engine.dialect.name == 'sqlite':
+                connection.connection.execute('BEGIN')
+
+            DBBase.metadata.create_all(connection)
+
         self._session_maker_instance = sessionmaker(bind=self._engine)
 
     @property
